@@ -55,21 +55,27 @@ enum Place {
     FilterPlainAndWindowed,
     /// … and `windowed && plain`
     FilterWindowedAndPlain,
+    /// the partition key is a computed column that the final select drops: the window is its only reader
+    ComputedKeyDropped,
 }
 
 /// One window program. Base relation: `from t | select {a, b}` (closed) or `from t` (open).
 pub fn gen(c: &mut Ctx, tier: Tier) -> Option<Program> {
     let open = c.flag("open-source");
     let places: &[Place] = match tier {
-        Tier::Quick => &[Place::Derive, Place::Filter, Place::AfterPlainAggregate, Place::AfterDistinct, Place::AfterTake, Place::FilterPlainAndWindowed],
-        Tier::Thorough => &[Place::Derive, Place::Filter, Place::Select, Place::SortKey, Place::DeriveThenFilter, Place::FilterThenDerive, Place::AfterTake, Place::AfterPlainAggregate, Place::BeforePlainAggregate, Place::AfterDistinct, Place::FilterPlainAndWindowed, Place::FilterWindowedAndPlain],
+        Tier::Quick => &[Place::Derive, Place::Filter, Place::AfterPlainAggregate, Place::AfterDistinct, Place::AfterTake, Place::FilterPlainAndWindowed, Place::ComputedKeyDropped],
+        Tier::Thorough => &[Place::Derive, Place::Filter, Place::Select, Place::SortKey, Place::DeriveThenFilter, Place::FilterThenDerive, Place::AfterTake, Place::AfterPlainAggregate, Place::BeforePlainAggregate, Place::AfterDistinct, Place::FilterPlainAndWindowed, Place::FilterWindowedAndPlain, Place::ComputedKeyDropped],
     };
     let place = *c.pick(places, "placement");
     let partitioned = c.flag("partition-by-a");
     // column indices in the frame the windowed step sees: [a, b] at top level, [b] inside group {a}
-    let (ca, cb) = if partitioned { (usize::MAX, 0) } else { (0, 1) };
+    let (ca, cb) = if place == Place::ComputedKeyDropped { (0, 1) } else if partitioned { (usize::MAX, 0) } else { (0, 1) };
+    if place == Place::ComputedKeyDropped && !partitioned {
+        return None;
+    }
     let sorts: Vec<Option<Vec<(bool, E)>>> = if partitioned {
-        vec![None, Some(vec![(false, E::Col(cb))]), Some(vec![(true, E::Col(cb))])]
+        // (the last one: a computed key, read by nothing but the window)
+        vec![None, Some(vec![(false, E::Col(cb))]), Some(vec![(true, E::Col(cb))]), Some(vec![(false, E::bin(Op::Add, E::Col(cb), E::Int(1)))])]
     } else {
         vec![None, Some(vec![(false, E::Col(cb))]), Some(vec![(true, E::Col(cb))]), Some(vec![(false, E::Col(ca)), (true, E::Col(cb))])]
     };
@@ -90,7 +96,7 @@ pub fn gen(c: &mut Ctx, tier: Tier) -> Option<Program> {
     let win = E::Win(f, arg);
     let test = E::bin(Op::Gt, win.clone(), E::Int(1));
     let wstep = match place {
-        Place::Derive | Place::DeriveThenFilter | Place::FilterThenDerive | Place::AfterTake | Place::AfterPlainAggregate | Place::BeforePlainAggregate => Step::Derive(vec![Item { alias: Some("w".into()), e: win }]),
+        Place::Derive | Place::DeriveThenFilter | Place::FilterThenDerive | Place::AfterTake | Place::AfterPlainAggregate | Place::BeforePlainAggregate | Place::ComputedKeyDropped => Step::Derive(vec![Item { alias: Some("w".into()), e: win }]),
         Place::Select => Step::Select(vec![Item { alias: None, e: E::Col(cb) }, Item { alias: Some("w".into()), e: win }]),
         Place::Filter | Place::AfterDistinct => Step::Filter(test),
         Place::FilterPlainAndWindowed => Step::Filter(E::bin(Op::And, E::bin(Op::Gt, E::Col(cb), E::Int(1)), test)),
@@ -130,7 +136,12 @@ pub fn gen(c: &mut Ctx, tier: Tier) -> Option<Program> {
         steps.push(Step::Sort(vec![(true, E::Col(1)), (false, E::Col(0))]));
         steps.push(Step::Take(Some(1), Some(3)));
     }
-    if partitioned {
+    if place == Place::ComputedKeyDropped {
+        // [a, b] → derive d → [a, b, d] → group {d} (…w) → [d, a, b, w] → select {b, w}
+        steps.push(Step::Derive(vec![Item { alias: Some("d".into()), e: E::bin(Op::Add, E::Col(0), E::Int(1)) }]));
+        steps.push(Step::Group { keys: vec![2], inner });
+        steps.push(Step::Select(vec![Item { alias: None, e: E::Col(2) }, Item { alias: None, e: E::Col(3) }]));
+    } else if partitioned {
         steps.push(Step::Group { keys: vec![0], inner });
     } else {
         steps.extend(inner);
@@ -161,6 +172,13 @@ pub fn gen(c: &mut Ctx, tier: Tier) -> Option<Program> {
         }
     }
     Some(prog)
+}
+
+/// the window programs as text (for the checks that walk RQ or look for panics)
+pub fn program_texts(tier: Tier) -> Vec<String> {
+    let (cases, _) = engine::collect(0, |c| gen(c, tier));
+    let mut seen = std::collections::HashSet::new();
+    cases.into_iter().map(|(p, _)| pr_program(&p)).filter(|t| seen.insert(t.clone())).collect()
 }
 
 fn keyfn(f: &Finding, p: &Program, o: &Outcome) -> Option<String> {
